@@ -283,6 +283,9 @@ def check(ctx):
     ctx.ob("R13", "device-carrying-outputs-are-listed", True, f"{n13} device-carrying output items of the config tables are all listed", sample={"rule": "R13", "items": n13})
     ctx.count("R13:device-carrying output items", n13)
     ctx.floor("R13", "device-carrying output items", n13, 600)
+    ctx.rule("R14", "the inventory is read from THIS spa's block: the declarations a connection builds from the pack modules are bound to its own structure - no function keeps such per-connection objects in a module-level container under a key that does not include the connection (`_DECLARATIONS[module_name] = Cls(struct)`: every later connection with the same pack versions reads the first connection's block - zeroed after its disconnect, so the facade of a reconnected spa has no devices) (C10.R8 extended and borrowed)")
+    from .c10 import shared_module_state as _sms12
+    _sms12(ctx.borrowed("R14", "C10"), repo, "R8")
     ctx.rule("R12", "the inventory does not drift: on model facades of both classes every read-only member that returns devices is read three times - the pump, blower, light and sensor lists the scan left are unchanged and every read gives the same devices (a member that builds its answer by extending one of the facade's own lists files blowers under the pumps and lists them again on every read)")
     from ..facademodel import inventory_reads_are_pure as _irp
     _irp(ctx, repo, "R12")
